@@ -96,6 +96,9 @@ func (s *SignatureData) RecoverDirect(message []byte, chainID int64) (a *ethtype
 	if err != nil {
 		return nil, err
 	}
+	if s.R.BitLen() > 256 || s.S.BitLen() > 256 {
+		return nil, fmt.Errorf("invalid R or S value in signature (more than 256 bits)")
+	}
 	s.R.FillBytes(signatureBytes[1:33])
 	s.S.FillBytes(signatureBytes[33:65])
 	pubKey, _, err := ecdsa.RecoverCompact(signatureBytes, message) // uses S256() by default
